@@ -46,10 +46,9 @@ impl DtnAddress {
         DtnAddress(format!("//{}/{}", node, service))
     }
     pub fn node_name(&self) -> &str {
-        self.0
-            .split('/')
-            .nth(2)
-            .expect("invalid internal dtn address format")
+        // names decoded from CBOR are not checked for the `//node/service` form: no third
+        // component means no node name, not a panic
+        self.0.split('/').nth(2).unwrap_or("")
     }
     pub fn service_name(&self) -> Option<&str> {
         self.0.splitn(4, '/').nth(3).filter(|&s| !s.is_empty())
